@@ -353,11 +353,16 @@ func Find(logger logger.Logger, start, stop string) (string, error) {
 					return "", fmt.Errorf("could not resolve '%s': %w", e.Name(), err)
 				}
 				return abs, nil
-			} else if start == stop {
-				return "", errors.New("No spokfile found")
 			}
 		}
-		start = filepath.Dir(start)
+
+		// Nothing in this directory, the next place to look is its parent unless this
+		// was the last directory we were allowed to look in, or there is no parent
+		parent := filepath.Dir(start)
+		if start == stop || parent == start {
+			return "", errors.New("No spokfile found")
+		}
+		start = parent
 	}
 }
 
